@@ -434,6 +434,19 @@ def parse (tbl : List OptSpec) (rules : List Rejection) (argv : List String) : O
         else if !st.extras.isEmpty then .error (.unrecognized st.extras)
         else .ok st.ns
 
+/-- The actions the parser takes for an argument vector, in order, with the strings each one receives (`none`: an ambiguous
+abbreviation ends the parse before any action). -/
+def stepsOf (tbl : List OptSpec) (argv : List String) : Option (List Step) :=
+  match classify tbl argv with
+  | .error _ => none
+  | .ok toks => some (sched tbl (tbl.find? fun sp => sp.flags.isEmpty) .none toks)
+
+/-- The step is the action with dest `d`: some argument string was resolved to one of its option strings (exactly, as an
+unambiguous abbreviation, as `--opt=value`, glued to a single-dash flag, or inside a cluster like `-vd`). -/
+def Step.takes (d : String) : Step → Bool
+  | .act sp _ => sp.dest = d
+  | _ => false
+
 /-- The parser of the tree under check. -/
 def parseArgv (argv : List String) : Outcome := parse actions rejections argv
 
@@ -475,10 +488,15 @@ def genSupportOf : Val → GenSupport
     if s = "always" then .always else if s = "only" then .only else if s = "as-needed" then .asNeeded else .never
   | _ => .never
 
-/-- An optional string argument: `None`, or a string; anything else makes the runner raise (`pathlib.Path([])` …). -/
-def optStr : Val → Option (Option String)
-  | .none => some none
-  | .sc (.str s) => some (some s)
+/-- An attribute that must be a string (`pathlib.Path([])`, `str + []` … raise). -/
+def strOf : Option Val → Option String
+  | some (.sc (.str s)) => some s
+  | _ => none
+
+/-- An optional string attribute: `None` or a string. -/
+def optStrOf : Option Val → Option (Option String)
+  | some .none => some none
+  | some (.sc (.str s)) => some (some s)
   | _ => none
 
 def splitSlash (cs : List Char) : List String :=
@@ -487,30 +505,29 @@ def splitSlash (cs : List Char) : List String :=
     | c :: r, cur => if c = '/' then String.ofList cur.reverse :: go r [] else go r (c :: cur)
   go cs []
 
+/-- `LanguageContextBuilder.set_target_language(...).create()`: a language of the package; an experimental one only with
+`--experimental-languages`.  (No `--target-language`: the builder falls back to the extension — not modelled.) -/
+def langOf (env : Environ) (ns : Namespace) : Option LangRow :=
+  match ns.lookup "target_language", ns.lookup "experimental_languages" with
+  | some (.sc (.str l)), some xl =>
+    (match env.langs.find? fun r => r.name = l with
+     | some row => if row.experimental && !truthy xl then none else some row
+     | none => none)
+  | _, _ => none
+
 /-- The `Cli.Args` record `ArgparseRunner.__init__` works from.  `none`: the runner raises before it reaches a generator
 (unknown or missing target language, an experimental language without `--experimental-languages`, a list where a string is
 needed). -/
-def toArgs (env : Environ) (ns : Namespace) : Option Args := do
-  let tl ← ns.lookup "target_language"
-  let row ← match tl with
-    | .sc (.str l) => env.langs.find? fun r => r.name = l
-    | _ => none
-  let xl ← ns.lookup "experimental_languages"
-  if row.experimental && !truthy xl then none else
-  let outdir ← match ← ns.lookup "outdir" with
-    | .sc (.str s) => some s
-    | _ => none
-  let ext ← optStr (← ns.lookup "output_extension")
-  let stem ← optStr (← ns.lookup "namespace_output_stem")
-  let tpl ← optStr (← ns.lookup "templates")
-  let stpl ← optStr (← ns.lookup "support_templates")
-  pure {
-    lang := row, pkgDir := env.pkgDir, outdir := splitSlash outdir.toList,
-    genSupport := genSupportOf (← ns.lookup "generate_support"),
-    omitSer := truthy (← ns.lookup "omit_serialization_support"),
-    gnt := truthy (← ns.lookup "generate_namespace_types"),
-    extArg := ext, stemArg := stem,
-    templates := tpl.map env.dirFiles, supportTemplates := stpl.map env.dirFiles }
+def toArgs (env : Environ) (ns : Namespace) : Option Args :=
+  match langOf env ns, strOf (ns.lookup "outdir"), optStrOf (ns.lookup "output_extension"),
+        optStrOf (ns.lookup "namespace_output_stem"), optStrOf (ns.lookup "templates"),
+        optStrOf (ns.lookup "support_templates"), ns.lookup "generate_support",
+        ns.lookup "omit_serialization_support", ns.lookup "generate_namespace_types" with
+  | some row, some outdir, some ext, some stem, some tpl, some stpl, some gs, some om, some gnt =>
+    some { lang := row, pkgDir := env.pkgDir, outdir := splitSlash outdir.toList, genSupport := genSupportOf gs,
+           omitSer := truthy om, gnt := truthy gnt, extArg := ext, stemArg := stem,
+           templates := tpl.map env.dirFiles, supportTemplates := stpl.map env.dirFiles }
+  | _, _, _, _, _, _, _, _, _ => none
 
 /-- `main` + `ArgparseRunner.__init__` + `run`, from the argument vector. -/
 inductive MainOut
